@@ -221,6 +221,8 @@ def r4_debug_only_guards(cx):
         f = F.fns[x]
         if "blocks" not in f or "creator::" in f["name"]:
             continue
+        if x in F.transparent and any(f["name"] in v for v in F.inlined.values()):
+            continue  # a helper that did not exist at the pinned commit: its statements are accounted for in its callers
         sites = set()
         for blk in f["blocks"]:
             if blk.get("cleanup"):
